@@ -14,6 +14,13 @@ fn main() {
         vharness::props::c01::parse_child_main();
         return;
     }
+    if args[1] == "--case-child" {
+        // vcheck --case-child <prop> <address space bytes> [--release-lane]  (input JSON on stdin)
+        vharness::monitor::install_panic_hook();
+        let mem = args.get(3).and_then(|s| s.parse::<u64>().ok()).unwrap_or(4 << 30);
+        vharness::guard::case_child_main(&args[2], mem, args.iter().any(|a| a == "--release-lane"));
+        return;
+    }
     let prop = args[1].clone();
     let mut tier = match std::env::var("VERIF_TIER").ok().as_deref() {
         Some("thorough") => Tier::Thorough,
@@ -86,6 +93,13 @@ fn main() {
         std::process::exit(vharness::props::replay(&cfg, &v, &path));
     }
 
+    // fuse: a library change that allocates without bound must not take the machine down (62 GB, no swap);
+    // an allocation failure aborts this process and bin/check reports INCONCLUSIVE
+    let fuse_gb: u64 = std::env::var("VERIF_AS_LIMIT_GB").ok().and_then(|s| s.parse().ok()).unwrap_or(44);
+    unsafe {
+        let lim = libc::rlimit { rlim_cur: fuse_gb << 30, rlim_max: fuse_gb << 30 };
+        libc::setrlimit(libc::RLIMIT_AS, &lim);
+    }
     start_watchdog(&prop, tier.pick(1500, 4 * 3600));
     match vharness::props::run(&cfg) {
         Some(mut report) => {
